@@ -38,7 +38,13 @@ GLOBAL_ASSUMPTIONS = [
 ]
 
 
+def quiet_logging():
+    import logging
+    logging.disable(logging.CRITICAL)
+
+
 def load_contracts():
+    quiet_logging()
     mods = sorted(glob.glob(os.path.join(HERE, 'contracts', '*.py')))
     for m in mods:
         name = os.path.basename(m)[:-3]
